@@ -1443,7 +1443,7 @@ func runTCPCase(h *verifx.H, r *verifx.Rng) {
 		case 1:
 			frames = append(frames, tcpFrame{}) // body length 0: an empty packet
 		case 2:
-			frames = append(frames, tcpFrame{body: [][]byte{{0x80}, {0x00}, {0xff}, {'{'}}[r.Intn(4)]}) // 1 byte
+			frames = append(frames, tcpFrame{body: [][]byte{{0x80}, {0x00}, {0xff}, {0xc1}}[r.Intn(4)]}) // 1 byte (never JSON: JSON errors are not modelled)
 		case 3:
 			frames = append(frames, tcpFrame{body: r.Bytes(r.Range(2, 40))}) // garbage inside correct framing is harmless
 			frames[len(frames)-1].body[0] = 0xc1                              // (never a valid batch)
